@@ -43,9 +43,13 @@ def run(chk):
     # C14.d constant tables are never read out of bounds
     subscript.run_units(chk)
     nodeadd.run(chk)
+    from lib import emitsiblings
+    emitsiblings.run(chk)
     from lib import opkind
     opkind.run(chk, A["emit"], floor=150)
     opkind.run(chk, xemit, floor=30)
+    a64common.rule_id_range_raw(chk, A["emit"], "a64::Assembler::_emit")
+    a64common.rule_id_range_raw(chk, xemit, "x86::Assembler::_emit")
     from lib import sentinel
     sentinel.run_units(chk)
 
